@@ -32,7 +32,10 @@ func (c *vctx) Deadline() (time.Time, bool) {
 }
 func (c *vctx) Done() <-chan struct{} { return c.done }
 func (c *vctx) Err() error {
-	Yield()
+	if t := me(); t != nil && !t.killed {
+		pt(t, "ctx.Err")
+		s.acc(t, chanID(c.done), false)
+	}
 	return c.err
 }
 func (c *vctx) Value(k any) any {
@@ -100,6 +103,9 @@ func (c *vctx) cancel(err error, removeFromParent bool) {
 func newVctx(parent context.Context) *vctx {
 	c := &vctx{parent: parent, done: make(chan struct{})}
 	if pv, ok := parent.Value(&vctxKey).(*vctx); ok {
+		if t := me(); t != nil {
+			s.acc(t, chanID(pv.done), true)
+		}
 		if pv.err != nil {
 			c.cancelQuiet(pv.err)
 		} else {
